@@ -329,4 +329,132 @@ pub(crate) mod naive {
     }
 }
 
+/// Verification hooks (`--cfg fast_tlsh_verif`): direct, safe access to every
+/// body distance backend compiled into this build.
+#[cfg(fast_tlsh_verif)]
+pub mod verif {
+    /// Backend: pseudo-SIMD (32-bit).
+    pub const PSEUDO_SIMD_32: u8 = 0;
+    /// Backend: pseudo-SIMD (64-bit).
+    pub const PSEUDO_SIMD_64: u8 = 1;
+    /// Backend: x86 SSE2.
+    pub const X86_SSE2: u8 = 2;
+    /// Backend: x86 SSE4.1.
+    pub const X86_SSE4_1: u8 = 3;
+    /// Backend: x86 AVX2.
+    pub const X86_AVX2: u8 = 4;
+
+    /// Computes the distance between two 12-byte bodies with the specified
+    /// backend ([`None`] if the backend is unavailable).
+    pub fn distance_12(backend: u8, body1: &[u8; 12], body2: &[u8; 12]) -> Option<u32> {
+        match backend {
+            PSEUDO_SIMD_32 => Some(super::pseudo_simd_32::distance_12(body1, body2)),
+            PSEUDO_SIMD_64 => Some(super::pseudo_simd_64::distance_12(body1, body2)),
+            _ => None,
+        }
+    }
+
+    macro_rules! verif_distance_func_template {
+        {$($name:ident = $size:literal;)*} => {
+            $(
+                #[doc = concat!(
+                    "Computes the distance between two ", stringify!($size),
+                    "-byte bodies with the specified backend ",
+                    "([`None`] if the backend is unavailable)."
+                )]
+                pub fn $name(backend: u8, body1: &[u8; $size], body2: &[u8; $size]) -> Option<u32> {
+                    match backend {
+                        PSEUDO_SIMD_32 => Some(super::pseudo_simd_32::$name(body1, body2)),
+                        PSEUDO_SIMD_64 => Some(super::pseudo_simd_64::$name(body1, body2)),
+                        #[cfg(all(
+                            feature = "simd-per-arch",
+                            feature = "opt-simd-body-comparison",
+                            any(target_arch = "x86", target_arch = "x86_64"),
+                            any(
+                                feature = "detect-features",
+                                all(
+                                    not(target_feature = "avx2"),
+                                    not(target_feature = "sse4.1"),
+                                    target_feature = "sse2"
+                                )
+                            )
+                        ))]
+                        X86_SSE2 => {
+                            #[cfg(feature = "detect-features")]
+                            if !std::arch::is_x86_feature_detected!("sse2") {
+                                return None;
+                            }
+                            #[allow(unsafe_code)]
+                            unsafe {
+                                Some(super::x86_sse2::$name(body1, body2))
+                            }
+                        }
+                        #[cfg(all(
+                            feature = "simd-per-arch",
+                            feature = "opt-simd-body-comparison",
+                            any(target_arch = "x86", target_arch = "x86_64"),
+                            any(
+                                feature = "detect-features",
+                                all(not(target_feature = "avx2"), target_feature = "sse4.1")
+                            )
+                        ))]
+                        X86_SSE4_1 => {
+                            #[cfg(feature = "detect-features")]
+                            if !std::arch::is_x86_feature_detected!("sse4.1") {
+                                return None;
+                            }
+                            #[allow(unsafe_code)]
+                            unsafe {
+                                Some(super::x86_sse4_1::$name(body1, body2))
+                            }
+                        }
+                        #[cfg(all(
+                            feature = "simd-per-arch",
+                            feature = "opt-simd-body-comparison",
+                            any(target_arch = "x86", target_arch = "x86_64"),
+                            any(feature = "detect-features", target_feature = "avx2")
+                        ))]
+                        X86_AVX2 => {
+                            #[cfg(feature = "detect-features")]
+                            if !std::arch::is_x86_feature_detected!("avx2") {
+                                return None;
+                            }
+                            #[allow(unsafe_code)]
+                            unsafe {
+                                Some(super::x86_avx2::$name(body1, body2))
+                            }
+                        }
+                        _ => None,
+                    }
+                }
+            )*
+        }
+    }
+
+    verif_distance_func_template! {
+        distance_32 = 32;
+        distance_64 = 64;
+    }
+
+    /// Whether the dispatch cells (32-byte, 64-byte) are initialized
+    /// ([`None`] if this build has no runtime dispatching).
+    pub fn dispatch_initialized() -> Option<(bool, bool)> {
+        cfg_if::cfg_if! {
+            if #[cfg(all(
+                feature = "simd-per-arch",
+                feature = "opt-simd-body-comparison",
+                feature = "detect-features",
+                any(target_arch = "x86", target_arch = "x86_64")
+            ))] {
+                Some((
+                    super::DISPATCH_DISTANCE_32.get().is_some(),
+                    super::DISPATCH_DISTANCE_64.get().is_some(),
+                ))
+            } else {
+                None
+            }
+        }
+    }
+}
+
 mod tests;
